@@ -2847,13 +2847,19 @@ pub fn c16_dial_ledger(nd: &mut Nondet) {
     let n_known = 1 + nd.choose("known_peers", 2) as usize;
     let mut known = Vec::new();
     for i in 0..n_known { known.push((peers[i], addresses[i].clone())); }
+    // optionally a third peer that Kademlia knows under an address no installed transport can dial
+    let stranger = nd.peer_id_fixed(3);
+    let with_stranger = param("with_stranger", 1) == 1 && nd.bool("undialable_peer_known");
+    if with_stranger {
+        known.push((stranger, Multiaddr::empty().with(Protocol::Ip4(Ipv4Addr::new(10, 0, 0, 3))).with(Protocol::Udp(4000)).with(Protocol::QuicV1).with(Protocol::P2p(stranger.into()))));
+    }
     let mut kernel = kad::new_kernel(&mut manager, known);
 
     let mut started: Vec<QueryId> = Vec::new();
     let mut finished: Vec<QueryId> = Vec::new();
     let steps = param("steps", 4);
     for _ in 0..steps {
-        match nd.choose("event", 2) {
+        match nd.choose("event", 3) {
             0 => {
                 let t = 50 + nd.choose("target", 2) as u8;
                 let target = nd.peer_id_fixed(t);
@@ -2861,6 +2867,18 @@ pub fn c16_dial_ledger(nd: &mut Nondet) {
                 check("c16k.query-ids-are-fresh", !started.contains(&q));
                 started.push(q);
                 cover("c16k.started");
+            }
+            1 => {
+                // PUT_VALUE to an explicit set of peers (any non-empty subset of the peers Kademlia may know)
+                let mut targets: Vec<PeerId> = Vec::new();
+                for i in 0..n_known { if nd.bool("put_to_peer") { targets.push(peers[i]); } }
+                if with_stranger && nd.bool("put_to_stranger") { targets.push(stranger); }
+                if targets.is_empty() { assume(false); }
+                let quorum = if nd.bool("quorum_all") { Quorum::All } else { Quorum::One };
+                let q = kad::start_put_record_to_peers(&mut kernel, vec![9u8], vec![1u8], targets, quorum);
+                check("c16k.query-ids-are-fresh", !started.contains(&q));
+                started.push(q);
+                cover("c16k.put-started");
             }
             _ => {
                 let i = nd.choose("failed_peer", n_known as u64) as usize;
